@@ -126,27 +126,35 @@ Definition complement (n : Z) (a : list Z) : res (list Z) :=
   with_cap size (compl_loop (Z.to_nat n + length a) n 0 a).
 
 (* ---------------------------------------------------------------- Range *)
-Fixpoint range_loop (fuel : nat) (i e step : Z) : res (list Z) :=
-  if i <? e then
-    match fuel with
-    | O => OutOfFuel
-    | S f => do r <- range_loop f (i + step) e step; Ret (i :: r)
-    end
-  else Ret [].
+(* The arguments are int64 values.  After the panic test and the empty case Range works with
+   uint64 magnitudes: [u64] is the wrap-around of uint64 arithmetic (every intermediate below is
+   written with it explicitly), [s64] the conversion int(x) of a uint64. *)
+Definition W64 : Z := 18446744073709551616.       (* 2^64 *)
+Definition max_int : Z := 9223372036854775807.     (* 2^63 - 1 *)
+Definition min_int : Z := -9223372036854775808.
+Definition u64 (x : Z) : Z := x mod W64.
+Definition s64 (x : Z) : Z :=
+  let y := x mod W64 in if y <? 9223372036854775808 then y else y - W64.
+
+(* for i := range tmp { tmp[i] = int(first + uint64(i)*size) } *)
+Fixpoint range_fill (n : nat) (i first size : Z) : list Z :=
+  match n with
+  | O => []
+  | S n' => s64 (u64 (first + u64 (u64 i * size))) :: range_fill n' (i + 1) first size
+  end.
 
 Definition range (start e step : Z) : res (list Z) :=
   if ((e <? start) && (step >? 0)) || ((e >? start) && (step <? 0)) || (negb (e =? start) && (step =? 0))
   then Panic                                   (* panic("Infinite set") *)
   else if e =? start then Ret []
   else
-    let '(start', e', step') :=
-      if e <? start then
-        let st := - step in
-        let k := Z.quot (start - e - 1) st in
-        (start - k * st, start + 1, st)
-      else (start, e, step) in
-    let cap := Z.quot (e' - start' + step' - 1) step' in    (* = the number of iterations *)
-    with_cap cap (range_loop (Z.to_nat cap) start' e' step').
+    let '(dist, size) :=
+      if e >? start then (u64 (u64 e - u64 start), u64 step)
+      else (u64 (u64 start - u64 e), u64 (- u64 step)) in
+    let count := u64 (u64 (dist - 1) / size + 1) in
+    let first := if e <? start then u64 (u64 start - u64 (u64 (count - 1) * size)) else u64 start in
+    if count >? max_int then Panic             (* make([]int, count): len out of range *)
+    else Ret (range_fill (Z.to_nat count) 0 first size).
 
 (* ---------------------------------------------------------------- NewSortedInts *)
 (* in-place removal of repeats from the sorted copy tmp *)
